@@ -368,6 +368,11 @@ package jsonschema
 //@     invariant[C05] d2: new(dep) && (forall k string {has(dep, k)} :: has(dep, k) <==> (has(s.DependencySchemas, k) || select(visited, k))) && (forall k string {select(visited, k)} :: select(visited, k) ==> has(s.DependencyStrings, k))
 //@   atreturn[C05] excl: result1 == nil ==> !(s.Type != "" && s.Types != nil) && !(s.Items != nil && s.ItemsArray != nil)
 
+// integer.UnmarshalJSON (property C05): an integer keyword is accepted only within the int32 range (so the
+// value survives on 32- and 64-bit systems alike); integral floats such as 3.0 are accepted by the same path.
+//@ contract (*integer).UnmarshalJSON(ip, data)
+//@   ensures[C05] range: result == nil && len(data) > 0 ==> 0 - 2147483648 <= *ip && *ip <= 2147483647
+
 // orderedProperties.MarshalJSON (property C19). The output is described through the member sequence of
 // the stream written to buf: nent members, the i-th with key keyAt(.,i) and value valAt(.,i).
 // Precondition: PropertyOrder has no duplicates (Schema.MarshalJSON runs basicChecks first; the call itself
